@@ -437,6 +437,11 @@ class Engine:
             r = self.ev(c, st, spec, ctx)
             if isinstance(l, str) and isinstance(r, str) and isinstance(op, (ast.Eq, ast.NotEq)):
                 res = z3.BoolVal((l == r) == isinstance(op, ast.Eq))
+            elif isinstance(l, tuple) and isinstance(r, tuple) and isinstance(op, (ast.Eq, ast.NotEq)) \
+                    and all(is_num(v) for v in l + r):
+                # tuples of numbers (shapes): equal iff same length and equal component-wise
+                eq = z3.And(*[a_ == b_ for a_, b_ in zip(l, r)]) if len(l) == len(r) else z3.BoolVal(False)
+                res = eq if isinstance(op, ast.Eq) else z3.Not(eq)
             elif isinstance(op, (ast.Is, ast.IsNot)) and (isinstance(l, SOpt) or isinstance(r, SOpt)) and (l is None or r is None):
                 o_ = l if isinstance(l, SOpt) else r
                 res = z3.Not(o_.present) if isinstance(op, ast.Is) else o_.present
